@@ -27,8 +27,8 @@ CLAIMED = {
  "C17": ("static analysis: linear-inequality abstract interpretation + must-write dataflow",
          "Marshal/Unmarshal of the five fixed-size extension codecs never panic for any input length (all obligations proved) and every decoded field is defined on every success path (receiver-independent result)",
          "bit-exact layout conformance is decided by the BITS rules (per_rule); the shortest accepted input of every codec equals its wire size (BOUNDS.minlen), so a length guard made stricter is reported as well as one made weaker; Marshal fails only for values outside the codec's range table (CTR.total) and returns exactly the wire size, 8 or 16 octets for abs-capture-time by the presence of the offset (CTR.size)"),
- "C19": ("static analysis: linear-inequality abstract interpretation + must-write dataflow",
-         "VLA.Unmarshal never panics on any input (one assumed obligation about a copied slice header) and resets every decoded field; VLA.Marshal's validation dominates its table indexing; payload writes rely on the requiredLen sum invariant (assumed, listed) ; every walk over streams and spatial ids is canonical (0..bound-1, step 1, no early end: STRUCT.vlawalk); the parts of the size pass that depend only on the stream count and the number of layers cover what the layout needs, for every count (SIBLING.vlasize, constant folding of the stored expressions)",
+ "C19": ("static analysis: linear-inequality abstract interpretation + must-write dataflow + CFG reachability rule for the shared-bitmask scan",
+         "VLA.Unmarshal never panics on any input (one assumed obligation about a copied slice header) and resets every decoded field; VLA.Marshal's validation dominates its table indexing; payload writes rely on the requiredLen sum invariant (assumed, listed) ; every walk over streams and spatial ids is canonical (0..bound-1, step 1, no early end: STRUCT.vlawalk); the parts of the size pass that depend only on the stream count and the number of layers cover what the layout needs, for every count (SIBLING.vlasize, constant folding of the stored expressions); the bitmask returned as shared by all streams is returned only after a full index has run over all per-stream bitmasks (SCAN.all: CFG reachability with the exhaustion edges cut; necessary condition of the shared/per-stream choice)",
          "shortest accepted input (2 octets) is checked (BOUNDS.minlen); byte-exact conformance of the variable-length body and round-trip equality are not decided"),
  "C20": ("static analysis: flow-sensitive origin (alias) analysis",
          "every reference reachable from the value returned by Packet.Clone / Header.Clone is memory allocated inside Clone or nil, on every path (independence decided through its cause) ; a per-element buffer is made afresh for every element (STRUCT.accfresh)",
